@@ -79,9 +79,7 @@ TwinAtom(c) == LET x == c.lines[1].c IN IF x.k = "not" THEN x.c ELSE x
 TwinJudgement(o) ==
     IF o.real.twin = "none" THEN TRUE
     ELSE LET m == ImplTwinRaises(o.env, TwinAtom(o.case)) IN
-         IF o.real.twin = "exception"
-         THEN (IF m THEN Say(o.tid, "dev:version-check-invalid-rhs-crashes-ordinary-code")
-                    ELSE Say(o.tid, "viol:OrdinaryCheckRaised"))
+         IF o.real.twin = "exception" THEN Say(o.tid, "viol:OrdinaryCheckRaised")
          ELSE (IF m THEN Say(o.tid, "drift:ImplTwin") ELSE TRUE)
 
 TInit == l = 1 /\ case = Blank /\ stage = "trace"
